@@ -4,13 +4,16 @@
 # rebuild /repo's own crates and the harness crates.
 set -u
 cd "$(dirname "$0")"
+V="$(pwd)"
+REPO="${VERIF_REPO:-/repo}"
+ln -sfn "$REPO" .repo
 export CARGO_NET_OFFLINE=true
 mkdir -p .build evidence replays
-cp /repo/Cargo.lock k/Cargo.lock
-cp /repo/Cargo.lock replay/Cargo.lock
-cp /repo/Cargo.lock s/harness/Cargo.lock
-python3 s/gen_sql.py /repo/sqlite/src/lib.rs fixtures/pinned/sqlite_lib.rs > s/rusqlite-model/src/gen.rs.tmp && mv s/rusqlite-model/src/gen.rs.tmp s/rusqlite-model/src/gen.rs
-python3 s/gen_glue.py /repo/sqlite/src/lib.rs s/harness/src/gen_real.rs
+cp $REPO/Cargo.lock k/Cargo.lock
+cp $REPO/Cargo.lock replay/Cargo.lock
+cp $REPO/Cargo.lock s/harness/Cargo.lock
+python3 s/gen_sql.py $REPO/sqlite/src/lib.rs fixtures/pinned/sqlite_lib.rs > s/rusqlite-model/src/gen.rs.tmp && mv s/rusqlite-model/src/gen.rs.tmp s/rusqlite-model/src/gen.rs
+python3 s/gen_glue.py $REPO/sqlite/src/lib.rs s/harness/src/gen_real.rs
 python3 s/gen_glue.py fixtures/pinned/sqlite_lib.rs s/harness/src/gen_old.rs
 ( cd replay && CARGO_TARGET_DIR=../.build/replay-target cargo build --offline >/dev/null 2>&1; CARGO_TARGET_DIR=../.build/replay-target cargo build --offline --release >/dev/null 2>&1 ) &
 for i in 0 1 2 3 4 5; do
@@ -20,9 +23,9 @@ wait
 for i in 0 1 2 3 4 5; do
   ( cd s/harness && cargo kani --target-dir ../../.build/s-t$i -Z stubbing --only-codegen >/dev/null 2>&1 ) &
 done
-( cd /repo && CARGO_TARGET_DIR=/verif/.build/mir/server/target cargo +nightly rustc --offline -p taskchampion-sync-server --lib -- -Zunpretty=mir >/dev/null 2>&1 ) &
-( cd /repo && CARGO_TARGET_DIR=/verif/.build/mir/dev/target cargo +nightly rustc --offline -p taskchampion-sync-server-core --lib -- -Zunpretty=mir >/dev/null 2>&1;
-  CARGO_TARGET_DIR=/verif/.build/mir/release/target cargo +nightly rustc --offline -p taskchampion-sync-server-core --lib -- -Zunpretty=mir >/dev/null 2>&1 ) &
+( cd "$REPO" && CARGO_TARGET_DIR=$V/.build/mir/server/target cargo +nightly rustc --offline -p taskchampion-sync-server --lib -- -Zunpretty=mir >/dev/null 2>&1 ) &
+( cd "$REPO" && CARGO_TARGET_DIR=$V/.build/mir/dev/target cargo +nightly rustc --offline -p taskchampion-sync-server-core --lib -- -Zunpretty=mir >/dev/null 2>&1;
+  CARGO_TARGET_DIR=$V/.build/mir/release/target cargo +nightly rustc --offline -p taskchampion-sync-server-core --lib -- -Zunpretty=mir >/dev/null 2>&1 ) &
 wait
 test -x .build/replay-target/debug/vreplay || { echo "setup: replay binary missing"; exit 1; }
 echo "setup ok"
